@@ -136,6 +136,9 @@ func (e *Engine) intrinsic(fr *Frame, st *State, name string, fn *ssa.Function, 
 		}
 		e.oblige(st, "assert", label, args[0].(T), pos)
 		return Tuple{}
+	case "GvcEq":
+		// structural equality of two spec values (ghost arrays and structs are not comparable in Go)
+		return tEq(e.toTerm(args[0], nil), e.toTerm(args[1], nil))
 	case "GvcAget":
 		return e.name(tSel(args[0].(T), e.toTerm(args[1], nil)), "ag")
 	case "GvcAset":
@@ -732,7 +735,7 @@ func init() {
 		"errors.As":         modelErrorsAs,
 		"errors.Join":       modelErrorsJoin,
 		"errors.Unwrap":     nil,
-		"fmt.Sprintf":       modelOpaqueString,
+		"fmt.Sprintf":       modelSprintf,
 		"fmt.Sprint":        modelOpaqueString,
 		"fmt.Sprintln":      modelOpaqueString,
 		"time.Now":          modelTimeNow,
@@ -992,6 +995,44 @@ func (e *Engine) emitJoinAs(j joinFact, at asType) {
 
 func modelOpaqueString(e *Engine, fr *Frame, st *State, fn *ssa.Function, args []Val, pos token.Pos) Val {
 	return e.fresh(sStr, "fmt")
+}
+
+// modelSprintf: with a constant format and arguments that are all value-boxed (strings,
+// integers, booleans) the result is a function of the format and the argument values; any
+// pointer-like argument makes it opaque (its text may depend on the heap).
+func modelSprintf(e *Engine, fr *Frame, st *State, fn *ssa.Function, args []Val, pos token.Pos) Val {
+	call := findCall(fr, fn, pos)
+	if call == nil || len(call.Call.Args) != 2 {
+		return e.fresh(sStr, "fmt")
+	}
+	format, known := constString(call.Call.Args[0])
+	n := varargsLen(call.Call.Args[1])
+	if !known || n < 0 || n > 4 {
+		return e.fresh(sStr, "fmt")
+	}
+	var anyT types.Type = types.NewInterfaceType(nil, nil)
+	if sl, ok := fn.Signature.Params().At(1).Type().Underlying().(*types.Slice); ok {
+		anyT = sl.Elem()
+	}
+	f := fmt.Sprintf("sprintf_%d", n)
+	doms := "String"
+	for i := 0; i < n; i++ {
+		doms += " Iface"
+	}
+	e.declFun(f, fmt.Sprintf("(%s) String", doms))
+	e.trust("fmt.Sprintf with a constant format and string/integer/boolean arguments is an uninterpreted function of the format and the argument values")
+	if n == 0 {
+		return e.name(T{fmt.Sprintf("(%s %s)", f, smtString(format)), sStr}, "fmt")
+	}
+	elems := e.sliceElems(st, args[1].(T), anyT, n)
+	valueBoxed := tTrue
+	call2 := "(" + f + " " + smtString(format)
+	for _, el := range elems {
+		valueBoxed = tAnd(valueBoxed, T{fmt.Sprintf("(or ((_ is if_str) %s) ((_ is if_int) %s) ((_ is if_bool) %s) ((_ is if_bv) %s))", el.S, el.S, el.S, el.S), sBool})
+		call2 += " " + el.S
+	}
+	call2 += ")"
+	return e.name(tIte(valueBoxed, T{call2, sStr}, e.fresh(sStr, "fmt")), "fmt")
 }
 
 func modelTimeNow(e *Engine, fr *Frame, st *State, fn *ssa.Function, args []Val, pos token.Pos) Val {
